@@ -395,6 +395,15 @@ H("enc_finish_flag", ["C03", "C05"], "comp", *ENC, cap_s=600,
   obligation="W1: finish_encoding writes flag 1 exactly when a compression encoding is in force, and the big-endian payload length",
   functions=["tonic::codec::encode::finish_encoding"], bounds="identity + the three encodings, 8-byte frame")
 
+H("enc_finish_any_len", ["C06", "C03", "C05"], "comp", *ENC, cap_s=600,
+  obligation="L2 for every length: finish_encoding accepts iff len <= limit and len <= u32::MAX; over the limit => OUT_OF_RANGE (either code when "
+             "it is over 4 GiB as well), within the limit but over 4 GiB => RESOURCE_EXHAUSTED; accepted => [flag (1 iff an encoding is in "
+             "force), BE32(len)] with the payload untouched; refused => nothing written",
+  functions=["tonic::codec::encode::finish_encoding"],
+  bounds="every slice length 5..=isize::MAX (the slice is fabricated over an 8-byte allocation: finish_encoding reads only buf.len() and "
+         "writes buf[..5], checked by CBMC's pointer checks), every Option<usize> limit, identity + 3 encodings",
+  assumes=["enc_finish_any_len: the &mut [u8] argument has a symbolic length but only 8 bytes of backing store; sound because any access "
+           "beyond index 7 would be reported by the (enabled) pointer checks"])
 ABS = ("tonic's compress/decompress (the wrappers around flate2/zstd, which cannot be executed symbolically) replaced by an abstract invertible "
        "codec ([0xC0|encoding id] ++ input) that records the encoding it was called with: decides framing/plumbing of the compressed path, "
        "not the real compressors")
